@@ -302,6 +302,42 @@ def checkRstackE (cfg : ECfg) (s : ESt) : Bool × ESt :=
     else (true, s)
   else (false, { s with warned := false })
 
+/-- the TRACE_OFF update of mcount_entry_filter_check after the repair of finding F-C07-TRACEOFF-FLUSH
+    (`Mcount.traceOffFlush` with events): record_trace_data(mtdp, top caller frame, NULL) while tracing
+    is still on, before `mcount_enabled = false` -/
+def traceOffFlushE (cfg : ECfg) (s : ESt) (tr : Trigger) : ESt :=
+  if cfg.base.f7fixed && tr.traceOff && (tr.traceOn || s.enabled) then
+    s.recorded (recordTraceE cfg false s.frames s.pend)
+  else s
+
+@[simp] theorem traceOffFlushE_of_traceOff_false (cfg : ECfg) (s : ESt) (tr : Trigger) (h : tr.traceOff = false) :
+    traceOffFlushE cfg s tr = s := by simp [traceOffFlushE, h]
+@[simp] theorem traceOffFlushE_of_f7_false (cfg : ECfg) (s : ESt) (tr : Trigger) (h : cfg.base.f7fixed = false) :
+    traceOffFlushE cfg s tr = s := by simp [traceOffFlushE, h]
+@[simp] theorem traceOffFlushE_none (cfg : ECfg) (s : ESt) : traceOffFlushE cfg s {} = s := by simp [traceOffFlushE]
+@[simp] theorem traceOffFlushE_over (cfg : ECfg) (s : ESt) (tr : Trigger) : (traceOffFlushE cfg s tr).over = s.over := by
+  unfold traceOffFlushE; split <;> rfl
+@[simp] theorem traceOffFlushE_recordIdx (cfg : ECfg) (s : ESt) (tr : Trigger) :
+    (traceOffFlushE cfg s tr).recordIdx = s.recordIdx := by unfold traceOffFlushE; split <;> rfl
+@[simp] theorem traceOffFlushE_warned (cfg : ECfg) (s : ESt) (tr : Trigger) :
+    (traceOffFlushE cfg s tr).warned = s.warned := by unfold traceOffFlushE; split <;> rfl
+@[simp] theorem traceOffFlushE_filt (cfg : ECfg) (s : ESt) (tr : Trigger) : (traceOffFlushE cfg s tr).filt = s.filt := by
+  unfold traceOffFlushE; split <;> rfl
+@[simp] theorem traceOffFlushE_enabled (cfg : ECfg) (s : ESt) (tr : Trigger) :
+    (traceOffFlushE cfg s tr).enabled = s.enabled := by unfold traceOffFlushE; split <;> rfl
+@[simp] theorem traceOffFlushE_enableCached (cfg : ECfg) (s : ESt) (tr : Trigger) :
+    (traceOffFlushE cfg s tr).enableCached = s.enableCached := by unfold traceOffFlushE; split <;> rfl
+@[simp] theorem traceOffFlushE_finished (cfg : ECfg) (s : ESt) (tr : Trigger) :
+    (traceOffFlushE cfg s tr).finished = s.finished := by unfold traceOffFlushE; split <;> rfl
+@[simp] theorem traceOffFlushE_winited (cfg : ECfg) (s : ESt) (tr : Trigger) :
+    (traceOffFlushE cfg s tr).winited = s.winited := by unfold traceOffFlushE; split <;> rfl
+@[simp] theorem traceOffFlushE_wcpu (cfg : ECfg) (s : ESt) (tr : Trigger) :
+    (traceOffFlushE cfg s tr).wcpu = s.wcpu := by unfold traceOffFlushE; split <;> rfl
+@[simp] theorem traceOffFlushE_wcopy (cfg : ECfg) (s : ESt) (tr : Trigger) :
+    (traceOffFlushE cfg s tr).wcopy = s.wcopy := by unfold traceOffFlushE; split <;> rfl
+@[simp] theorem traceOffFlushE_glob (cfg : ECfg) (s : ESt) (tr : Trigger) :
+    (traceOffFlushE cfg s tr).glob = s.glob := by unfold traceOffFlushE; split <;> rfl
+
 /-- mcount_entry_filter_check (regular build) -/
 def entryFilterCheckE (cfg : ECfg) (s : ESt) (addr : Nat) : FR × ESt × Trigger :=
   let c := checkRstackE cfg s
@@ -314,6 +350,7 @@ def entryFilterCheckE (cfg : ECfg) (s : ESt) (addr : Nat) : FR × ESt × Trigger
   if earlyOut cfg.base tr f0 then (.out, { s with filt := f1 }, tr) else
   let f3 := trigFilt tr f1
   let en := trigEnabled tr s.enabled
+  let s := traceOffFlushE cfg s tr
   if f3.depth ≥ depthLimit cfg.base tr f0 then (.out, { s with filt := f3, enabled := en }, tr)
   else (.in_, { s with filt := { f3 with depth := f3.depth + 1 }, enabled := en }, tr)
 
